@@ -2,6 +2,9 @@ package appdrv
 
 import (
 	"fmt"
+
+	"github.com/rigochain/rigo-go/libs/web3"
+	"github.com/rigochain/rigo-go/types"
 	"math/big"
 	"os"
 	"sort"
@@ -463,6 +466,65 @@ var Scenarios = []Directed{
 		}
 		s.End()
 		s.Blocks(8, allHdr)
+	}},
+	{"checktx_not_delivered", []string{"C12", "C06", "C11"}, famWith(0, map[string]string{"maxUpdatableStakeRatio": "100"}), func(s *Script) {
+		// mempool traffic that never makes it into a block must leave no trace: in particular the unstaking of a
+		// validator's whole own stake (which force-releases its delegators) that is only checked, never delivered
+		s.Blocks(2, allHdr)
+		s.Begin(allHdr)
+		s.expect(OK(s.Stake(4, 1, "4e18")), "a4 delegates to a1")
+		s.expect(OK(s.Stake(5, 1, "3e18")), "a5 delegates to a1")
+		s.End()
+		s.Blocks(1, allHdr)
+		s.Check(s.TxUnstake(1, 1, s.StakeIDs(1, 1)[0]), 1, "unstaking:checkonly")
+		s.Check(s.TxStake(6, 2, "2e18"), 6, "staking:checkonly")
+		s.Check(s.TxTransfer(4, 5, "7e18"), 4, "transfer:checkonly")
+		s.Blocks(2, allHdr)
+		s.Begin(allHdr)
+		s.Check(s.TxUnstake(4, 1, s.StakeIDs(4, 1)[0]), 4, "unstaking:checkonly")
+		s.Check(web3.NewTrxWithdraw(s.R.KR.Addr(1), s.R.KR.Addr(1), s.nonce(1), s.gas(), s.price(), Amt("5")), 1, "withdraw:checkonly")
+		s.expect(OK(s.Transfer(5, 6, "1e18")), "a delivered transfer")
+		s.End()
+		s.Blocks(5, allHdr)
+		s.Begin(allHdr)
+		s.expect(OK(s.Unstake(4, 1, s.StakeIDs(4, 1)[0])), "a4 really releases its stake")
+		s.End()
+		s.Blocks(5, allHdr)
+	}},
+	{"wrap_amount", []string{"C05", "C02", "C09"}, fam(0), func(s *Script) {
+		// amounts for which fee + amount wraps around 2^256, on transaction types that do not move the amount,
+		// sent by accounts that cannot pay the fee
+		s.Blocks(3, allHdr)
+		s.Begin(allHdr)
+		s.expect(OK(s.Stake(4, 1, "3e18")), "a4 delegates to a1")
+		s.expect(OK(s.Propose(1, 6, 3, 11, `{"gasPrice":"20"}`)), "a1 opens a proposal")
+		s.expect(OK(s.Transfer(4, 11, "50")), "a11 gets less than one fee")
+		s.expect(OK(s.Transfer(4, 12, "100")), "a12 gets exactly one fee")
+		s.End()
+		s.Blocks(1, allHdr)
+		s.Begin(allHdr) // 6: inside the voting window
+		fee := new(big.Int).Mul(s.price().ToBig(), new(big.Int).SetUint64(s.gas()))
+		two256 := new(big.Int).Lsh(big.NewInt(1), 256)
+		for _, from := range []int{11, 12, 3, 4} {
+			for _, d := range []int64{0, 1, 49, -1} {
+				amt := u256(new(big.Int).Add(new(big.Int).Sub(two256, fee), big.NewInt(d)))
+				tx := web3.NewTrxSetDoc(s.R.KR.Addr(from), s.nonce(from), s.gas(), s.price(), "wrapped", "wrapped")
+				tx.Amount = amt
+				s.expect(!OK(s.Deliver(tx, from, "setdoc:wrap")), "setdoc with a wrapping amount fails")
+				if p := s.Proposals(); len(p) > 0 {
+					tv := web3.NewTrxVoting(s.R.KR.Addr(from), types.ZeroAddress(), s.nonce(from), s.gas(), s.price(), s.R.KR.HashOf(p[0]), 0)
+					tv.Amount = amt
+					s.expect(!OK(s.Deliver(tv, from, "voting:wrap")), "vote with a wrapping amount fails")
+				}
+				if ids := s.StakeIDs(4, 1); len(ids) > 0 && from == 4 {
+					tu := s.TxUnstake(4, 1, ids[0])
+					tu.Amount = amt
+					s.expect(!OK(s.Deliver(tu, from, "unstaking:wrap")), "unstaking with a wrapping amount fails")
+				}
+			}
+		}
+		s.End()
+		s.Blocks(2, allHdr)
 	}},
 	{"setdoc_and_accounts", []string{"C05", "C19", "C04"}, fam(0), func(s *Script) {
 		s.Blocks(2, allHdr)
